@@ -187,3 +187,47 @@ extern "C" void harness_c10_traits() {
   }
   WITNESS();
 }
+
+// ---- a user-provided constructor with parameters: it is a default constructor only if every parameter has a default
+// argument (the parser stores `= 0` in CPPInstance::_initializer of the parameter).  Shapes by a concrete loop, access
+// symbolic.
+NOINL static CPPInstance *int_param(const char *name, bool with_default) {
+  CPPInstance *p = new CPPInstance(t_int, std::string(name));
+  if (with_default) p->_initializer = new CPPExpression(0);
+  return p;
+}
+
+extern "C" void harness_c10_ctor_params() {
+  t_void = new CPPSimpleType(CPPSimpleType::T_void);
+  t_int = new CPPSimpleType(CPPSimpleType::T_int);
+  for (int shape = S_NOARGS; shape <= S_ALL_DEFAULT; shape++) {
+    CPPIdentifier *ident = new CPPIdentifier(std::string("A"));
+    CPPScope *scope = new CPPScope(nullptr, CPPNameComponent("A"), V_private);
+    CPPStructType *A = new CPPStructType(CPPExtensionType::T_class, ident, nullptr, scope, CPPFile());
+    scope->set_struct_type(A);
+    A->_incomplete = false;
+    CPPParameterList *params = new CPPParameterList;
+    if (shape == S_ONE || shape == S_ONE_DEFAULT) params->_parameters.push_back(int_param("a", shape == S_ONE_DEFAULT));
+    if (shape == S_TRAILING_DEFAULT || shape == S_ALL_DEFAULT) {
+      params->_parameters.push_back(int_param("a", shape == S_ALL_DEFAULT));
+      params->_parameters.push_back(int_param("b", true));
+    }
+    int vis = pick_vis();
+    add_function(scope, "A", params, CPPFunctionType::F_constructor, 0, vis);
+    CPPInstance *m = new CPPInstance(t_int, std::string("m"));
+    m->_vis = V_public;
+    scope->_variables[std::string("m")] = m;
+#ifdef VERIF_NATIVE
+    printf("class A { access %d: A(<shape %d>); int m; }  (shape: 0 A(), 1 A(int), 2 A(int=0), 3 A(int, int=0), 4 A(int=0, int=0))\n", vis, shape);
+    printf("  interrogate: has default ctor=%d default_constructible=%d; C++: %d %d\n", (int)(A->get_default_constructor() != nullptr),
+           (int)A->is_default_constructible(), (int)c10p_is_default_ctor(shape), (int)c10p_default_constructible(shape, vis));
+#endif
+    ASSERT((A->get_default_constructor() != nullptr) == c10p_is_default_ctor(shape),
+           "C10 a constructor is a default constructor exactly when every parameter has a default argument");
+    ASSERT(A->is_default_constructible() == c10p_default_constructible(shape, vis),
+           "C10 is_default_constructible equals std::is_default_constructible for a constructor with parameters");
+    ASSERT(A->is_copy_constructible() == c10p_copy_constructible(shape, vis),
+           "C10 is_copy_constructible equals std::is_copy_constructible for a constructor with parameters");
+  }
+  WITNESS();
+}
